@@ -79,6 +79,27 @@ end
 
 def File.orderOk (f : File) : Bool := f.items.orderOk .file .none false false
 
+mutual
+/-- the part of `orderOk` that is about item sequences (lists, sets, parentheses, top level) only:
+    `orderOk` without the condition `appOrderOk` on calls (used to state that `appOrderOk` is needed) -/
+def Cst.orderOkSeq : Cst → Bool
+  | .leaf _ _ => true
+  | .list its _ => its.orderOkSeq .list .none false false
+  | .set _ _ its _ => its.orderOkSeq .set .none false false
+  | .paren its _ => its.orderOkSeq .paren .none false false
+  | .app f _ _ a => f.orderOkSeq && a.orderOkSeq
+def Items.orderOkSeq : Items → Mode → Prev → Bool → Bool → Bool
+  | .nil, _, _, _, _ => true
+  | .cmt g _ rest, m, prev, pending, hasItem =>
+    let inl := prevAllowsInline m prev && !containsNL g && hasItem
+    if inl then !pending && rest.orderOkSeq m .cmt pending hasItem
+    else rest.orderOkSeq m .cmt true hasItem
+  | .elem _ c rest, m, _, _, _ => c.orderOkSeq && rest.orderOkSeq m .item false true
+  | .bind _ _ _ _ _ _ v _ _ rest, m, _, _, _ => v.orderOkSeq && rest.orderOkSeq m .item false true
+end
+
+def File.orderOkSeq (f : File) : Bool := f.items.orderOkSeq .file .none false false
+
 /-- is `w` an acceptable separator in front of the token/comment `x`: formatter normal form
     (`""`, `" "`, one or two line breaks followed by spaces), and nothing at all in front of `;` -/
 def sepOk (w : Text) (x : Lex) : Bool := isNormalSep w && (x != .tok [';'] || w.isEmpty)
@@ -196,8 +217,8 @@ def Cst.cf : Cst → Bool
   | .leaf _ _ => true
   | .list its _ => its.cf
   | .set _ _ its _ => its.cf
-  | .paren its _ => its.cf
-  | .app f cs _ a => f.cf && cs.isEmpty && a.cf
+  | .paren .. => false     -- the normaliser `Cst.norm` covers containers only so far (`File.basic`)
+  | .app .. => false
 def Items.cf : Items → Bool
   | .nil => true
   | .cmt _ _ _ => false
